@@ -15,7 +15,7 @@ import itertools
 import operator
 import pickle
 
-from traits.api import HasTraits, Any, CInt, Set, TraitError
+from traits.api import HasTraits, Any, CInt, Set, TraitError, push_exception_handler
 from traits.trait_set_object import TraitSet
 from traits.observation import api as obs_api
 
@@ -37,7 +37,15 @@ META = {
              "contents (also for the plain set returned by s.copy()). Exhaustive over all start sets of size 0..3 x all single operations of "
              "that grid, plus random 20-op histories with a copy (copy.copy, copy.deepcopy, "
              "pickle protocol 0..5) taken at a random point, checked against the copy law and "
-             "then driven by the rest of the history. distinct_nontrivial counts distinct "
+             "then driven by the rest of the history; and a re-entrancy stratum (exhaustive "
+             "single operations x 8 fixed reactions, plus random 15-op histories): a mirror "
+             "listener registered first rebuilds the contents from the notifications alone, a "
+             "second listener (plain notifier / observe handler / on_trait_change or static "
+             "<name>_items listener) answers chosen notifications with 1..3 further operations "
+             "on the same set (depth <= 2, <= 3 reactions per top-level operation), every "
+             "nested operation is judged like a top-level one against the same model, a third "
+             "listener registered last must receive the same notifications in any order. "
+             "distinct_nontrivial counts distinct "
              "(flavour, op, argument shape, overlap class, outcome class, event shape, copied) "
              "signatures of cases in which the set changed, an event was emitted or an exception "
              "was raised, and (flavour, copy mode, size class) signatures of copies."),
@@ -49,6 +57,12 @@ META = {
                   "observer_events_checked": 24000, "copy_probes": 8500,
                   "isolation_checks": 29000, "isolation_checks_copy_mutated": 20000,
                   "isolation_checks_original_mutated": 8500,
+                  # re-entrant listeners
+                  "reentrant_ops": 30000, "reentrant_nested_ops": 45000,
+                  "reentrant_nested_content_changes": 33000,
+                  "reentrant_ops_with_2_or_more_nested": 12000, "reentrant_mirror_events": 50000,
+                  "reentrant_quiescence_checks": 30000, "reentrant_exhaustive_cases": 15000,
+                  "reentrant_histories": 1000,
                   # sets nobody listens to (never had a notifier, or a fresh copy)
                   "unwatched_evaluations": 100000, "unwatched_failures_checked": 15000,
                   "unwatched_bulk_rejections_checked": 4000, "copies_continued_unwatched": 1500,
@@ -62,7 +76,12 @@ META = {
                      "unwatched_bulk_rejections_checked": 45000,
                      "copies_continued_unwatched": 37000, "exhaustive_unwatched_cases": 75000,
                      "isolation_checks": 700000, "isolation_checks_copy_mutated": 500000,
-                     "isolation_checks_original_mutated": 210000},
+                     "isolation_checks_original_mutated": 210000,
+                     "reentrant_ops": 400000, "reentrant_nested_ops": 300000,
+                     "reentrant_nested_content_changes": 160000,
+                     "reentrant_ops_with_2_or_more_nested": 90000,
+                     "reentrant_mirror_events": 340000, "reentrant_quiescence_checks": 400000,
+                     "reentrant_exhaustive_cases": 15000, "reentrant_histories": 26000},
     },
     "exhaustive_parts": "all single operations of the grid in `rule` on every start set of size "
                         "0..3 over the validated item universe of each flavour",
@@ -70,6 +89,9 @@ META = {
                     "items are compared by equality; validators are pure functions of the item "
                     "and of the current set of banned items",
                     "pop may return any element",
+                    "notifications are delivered synchronously and depth-first: only the listener "
+                    "registered before a re-entrant one is required to receive them in operation "
+                    "order, each applicable to the contents at that time",
                     "a pickled or shallow-copied TraitSetObject is documented as detached from "
                     "its trait, so only equality and independence are demanded of it"],
 }
@@ -131,6 +153,16 @@ class Holder(HasTraits):
 
 class Box(HasTraits):
     x = Any()
+
+
+class StaticHolder(HasTraits):
+    """A Set trait whose items event has a static listener."""
+    s = Set(CInt)
+    hook = Any()
+
+    def _s_items_changed(self, event):
+        if self.hook is not None:
+            self.hook(event)
 
 
 class Env:
@@ -356,13 +388,24 @@ def hostile_difference(op):
     return False
 
 
-def check_one(ctx, env, model, op, copied=False, key_prefix=""):
-    """Run op on env.ts and on a copy of model, judge.  Returns complaint key or None.
-    `model` (a set) is updated in place when the operation is judged correct."""
-    flavour, ts = env.flavour, env.ts
+NOTSET = object()
+
+
+class Judged:
+    """What judge_op saw."""
+    __slots__ = ("before", "after", "rm", "rr", "bad", "is_pop", "own_changed")
+
+
+def judge_op(ctx, flavour, ts, model, op, commit_first=False, pop_box=None):
+    """Run op on ts and on the model; judge contents, return value, exception class
+    and failure atomicity.  Returns (complaint or None, Judged).  `model` (a set) is
+    updated in place when the operation is judged correct.  With commit_first the
+    model receives the operation before the real set does, so that operations made
+    by a re-entrant notifier during the call are applied to the model at the same
+    point of the history as to the set (for pop, whose victim only the set knows, the
+    first listener removes the reported item from the model: pop_box, a stack)."""
     iv = IV[flavour]
     before = set(ts)
-    env.clear_logs()
     siv = (lambda x: DUMMY if _invalid(iv, x) else iv(x))
 
     bad = any(_invalid(iv, x) for x in validated_items(op, model))
@@ -384,12 +427,26 @@ def check_one(ctx, env, model, op, copied=False, key_prefix=""):
             apply_model(set(model), op, iv_none)
         except Exception as e:
             allowed.add(type(e))
+    own_changed = rm[0] == "ok" and not bad and (bool(m2) if is_pop else m2 != model)
+    saved, normal_ok = None, False
+    if commit_first and rm[0] == "ok" and not bad:
+        saved = set(model)
+        model.clear()
+        model.update(m2)
+        m2 = model
+        if is_pop:
+            box = {"pending": model, "popped": NOTSET}
+            pop_box.append(box)           # a stack: pops can nest
     try:
         rr = ("ok", apply_real(ts, op))
     except Exception as e:
         rr = ("exc", type(e))
     after = set(ts)
-    if is_pop and rm[0] == "ok" and rr[0] == "ok":
+    if is_pop and saved is not None:
+        pop_box.remove(box)
+        if rr[0] == "ok" and box["popped"] is not NOTSET and box["popped"] == rr[1]:
+            rm = ("ok", rr[1])
+    elif is_pop and rm[0] == "ok" and rr[0] == "ok":
         try:
             if rr[1] in m2:
                 m2.discard(rr[1])
@@ -422,11 +479,30 @@ def check_one(ctx, env, model, op, copied=False, key_prefix=""):
         elif not (rr[1] is rm[1] or rr[1] == rm[1]):
             complaint = "return-value-differs"
         else:
-            model.clear()
-            model.update(m2)
+            normal_ok = True
+            if saved is None:
+                model.clear()
+                model.update(m2)
+    if saved is not None and not normal_ok:
+        model.clear()
+        model.update(saved)
     ctx.ev()
     if rr[0] == "exc":
         ctx.count("failures_checked")
+    j = Judged()
+    j.before, j.after, j.rm, j.rr, j.bad, j.is_pop = before, after, rm, rr, bad, is_pop
+    j.own_changed = own_changed and normal_ok
+    return complaint, j
+
+
+def check_one(ctx, env, model, op, copied=False, key_prefix=""):
+    """Run op on env.ts and on a copy of model, judge outcome and notifications.
+    Returns complaint key or None.  `model` (a set) is updated in place when the
+    operation is judged correct."""
+    flavour = env.flavour
+    env.clear_logs()
+    complaint, j = judge_op(ctx, flavour, env.ts, model, op)
+    before, after, rm, rr, bad, is_pop = j.before, j.after, j.rm, j.rr, j.bad, j.is_pop
 
     changed = after != before
     evs = [e[1:] for e in env.raw]
@@ -488,6 +564,227 @@ def check_one(ctx, env, model, op, copied=False, key_prefix=""):
              "silent": env.silent,
              "banned": sorted(BANNED, key=repr)})
     return complaint
+
+
+# -- re-entrancy ------------------------------------------------------------------
+REACTOR_KINDS = ("notifier", "observe", "items", "static")   # the last two: Set traits only
+TRIGGERS = ("any", "added", "removed")
+
+
+class ReEnv:
+    """A set with a *mirror* registered first (it rebuilds the contents from the
+    notifications alone), a *reactor* (plain notifier / observe handler /
+    on_trait_change or static <name>_items listener) that answers chosen notifications
+    with 1..3 further operations on the same set, and a plain recorder registered
+    last.  Nested operations are judged like top-level ones, against the same model, at
+    the point where they happen."""
+
+    def __init__(self, ctx, flavour, state, kind, trigger, rng=None, scripts=None,
+                 max_reactions=2, max_depth=2, hostile=False):
+        self.ctx, self.flavour, self.kind, self.trigger = ctx, flavour, kind, trigger
+        self.rng, self.scripts, self.hostile = rng, scripts, hostile
+        self.max_reactions, self.max_depth = max_reactions, max_depth
+        self.root = None
+        if flavour == "tso":
+            self.root = (StaticHolder if kind == "static" else Holder)(s=set(state))
+            self.ts, name = self.root.s, "s"
+        else:
+            kw = {}
+            if flavour != "none":
+                kw["item_validator"] = IV[flavour]
+            self.ts, name = TraitSet(list(state), **kw), "x"
+            if kind == "observe":
+                self.root = Box(x=self.ts)
+        self.model = set(state)
+        self.mirror = set(self.ts)
+        self.mirror_log, self.late_log = [], []
+        self.mirror_complaint = None
+        self.nested_complaint = None
+        self.nested_ops = []
+        self.events = 0                  # notifications seen by the mirror
+        self.frames = []                 # events that belong to operations in flight
+        self.depth = 0
+        self.reactions_left = 0
+        self.script_no = 0
+        self.pop_box = []                # pops in flight whose victim is not known yet
+        self.ts.notifiers.insert(0, self._mirror)
+        if kind == "notifier":
+            self.ts.notifiers.append(self._react_raw)
+        elif kind == "observe":
+            self.root.observe(self._react_event, name + ".items")
+        elif kind == "items":
+            self.root.on_trait_change(self._react_event, name + "_items")
+        else:
+            self.root.hook = self._react_event
+        self.ts.notifiers.append(self._late)
+
+    # -- listeners
+    def _mirror(self, s, removed, added):
+        self.events += 1
+        self.ctx.count("reentrant_mirror_events")
+        if self.depth:
+            self.ctx.count("reentrant_nested_events")
+        removed, added = set(removed), set(added)
+        self.mirror_log.append((removed, added))
+        if self.pop_box and self.pop_box[-1]["pending"] is not None:
+            box = self.pop_box[-1]       # the victim of the innermost pop() in flight
+            pending, box["pending"] = box["pending"], None
+            if len(removed) == 1 and not added:
+                x = next(iter(removed))
+                if x in pending:
+                    pending.discard(x)
+                    box["popped"] = x
+        m, c = self.mirror, None
+        if s is not self.ts:
+            c = "notifier-got-another-set"
+        elif not removed and not added:
+            c = "event-without-change"
+        elif not removed <= m:
+            c = "removed-not-subset-of-contents-at-that-time"
+        elif added & m:
+            c = "added-not-disjoint-from-contents-at-that-time"
+        m -= removed
+        m |= added
+        if not c and m != set(self.ts):
+            # first in line: nothing ran since the operation, so the contents rebuilt
+            # from the notification are the contents the set holds now
+            c = "contents-rebuilt-from-event-are-not-the-current-contents"
+        if c and self.mirror_complaint is None:
+            self.mirror_complaint = c
+
+    def _late(self, s, removed, added):
+        self.late_log.append((set(removed), set(added)))
+
+    def _react_raw(self, s, removed, added):
+        self._react(bool(removed), bool(added))
+
+    def _react_event(self, event):
+        self._react(bool(event.removed), bool(event.added))
+
+    def _react(self, has_removed, has_added):
+        if self.depth >= self.max_depth or self.reactions_left <= 0:
+            return
+        t = self.trigger
+        if not (t == "any" or (t == "added" and has_added) or (t == "removed" and has_removed)):
+            return
+        self.reactions_left -= 1
+        self.depth += 1
+        self.ctx.count("reentrant_reactions")
+        try:
+            if self.scripts is not None:
+                ops = self.scripts[self.script_no % len(self.scripts)]
+                self.script_no += 1
+            else:
+                ops = [random_op(self.rng, self.flavour, self.hostile)
+                       for _ in range(self.rng.randint(1, 3))]
+            for op in ops:
+                if self.nested_complaint is None:
+                    self._nested(op)
+        finally:
+            self.depth -= 1
+
+    def run_op(self, op):
+        """Judge one operation (top-level or nested); returns (complaint, Judged)."""
+        start = self.events
+        self.frames.append(0)
+        complaint, j = judge_op(self.ctx, self.flavour, self.ts, self.model, op,
+                                commit_first=True, pop_box=self.pop_box)
+        inner = self.frames.pop()
+        total = self.events - start
+        if self.frames:
+            self.frames[-1] += total
+        own = total - inner
+        if complaint is None:
+            if j.own_changed and own != 1:
+                complaint = "changed-with-%s-events" % ("no" if not own else "several")
+            elif not j.own_changed and own:
+                complaint = "event-without-change"
+            elif not own:
+                self.ctx.count("reentrant_silent_noops_checked")
+        return complaint, j
+
+    def _nested(self, op):
+        self.ctx.count("reentrant_nested_ops")
+        self.nested_ops.append((self.depth,) + tuple(op))
+        complaint, j = self.run_op(op)
+        if j.own_changed:
+            self.ctx.count("reentrant_nested_content_changes")
+        if complaint and self.nested_complaint is None:      # the innermost one came first
+            self.nested_complaint = (op, complaint, j)
+
+
+def check_reentrant(ctx, renv, op):
+    """One top-level operation on a set with a re-entrant listener."""
+    renv.reactions_left = renv.max_reactions
+    del renv.mirror_log[:], renv.late_log[:], renv.nested_ops[:]
+    renv.mirror_complaint = renv.nested_complaint = None
+    ctx.count("reentrant_ops")
+    complaint, j = renv.run_op(op)
+    key = None
+    if renv.nested_complaint:            # it happened first
+        nop, complaint, nj = renv.nested_complaint
+        key = "reentrant/nested-%s/%s" % (nop[0], complaint)
+    elif complaint:
+        key = "reentrant/outer-%s/%s" % (op[0], complaint)
+    if key is None and renv.mirror_complaint:
+        complaint = renv.mirror_complaint
+        key = "reentrant/first-listener/" + complaint
+    if key is None:
+        ctx.count("reentrant_quiescence_checks")
+        if renv.mirror != set(renv.ts):
+            complaint = "contents-rebuilt-from-events-differ-at-quiescence"
+            key = "reentrant/first-listener/" + complaint
+    if key is None:
+        # a listener registered after the re-entrant one hears of nested operations
+        # before the outer one (delivery is depth-first): only the set of
+        # notifications is demanded of it, not their order
+        rest = list(renv.late_log)
+        for ev in renv.mirror_log:
+            if ev in rest:
+                rest.remove(ev)
+            else:
+                complaint = "notification-missing"
+                break
+        if complaint is None and rest:
+            complaint = "extra-notification"
+        if complaint:
+            key = "reentrant/last-listener/" + complaint
+    if len(renv.nested_ops) >= 2:
+        ctx.count("reentrant_ops_with_2_or_more_nested")
+    if renv.nested_ops or renv.mirror_log or j.rr[0] == "exc":
+        ctx.sig("reentrant", renv.flavour, renv.kind, renv.trigger, op[0],
+                j.rr[0] if j.rr[0] == "ok" else j.rr[1].__name__,
+                min(len(renv.nested_ops), 4), max([d for d, *_ in renv.nested_ops] or [0]),
+                renv.nested_ops[0][1] if renv.nested_ops else None, min(len(renv.mirror_log), 4),
+                (len(j.after) > len(j.before)) - (len(j.after) < len(j.before)))
+    if key:
+        ctx.violation(
+            key, "%s on %s set with a re-entrant %s (reacts to %s): op=%r nested=%r model=%r "
+                 "real=%r before=%r after=%r first-listener events=%r last-listener events=%r "
+                 "contents rebuilt by first listener=%r"
+            % (complaint, renv.flavour, renv.kind, renv.trigger, op, renv.nested_ops, j.rm, j.rr,
+               j.before, j.after, renv.mirror_log[:6], renv.late_log[:6], renv.mirror),
+            {"flavour": renv.flavour, "kind": renv.kind, "trigger": renv.trigger, "op": op,
+             "nested": renv.nested_ops, "before": j.before, "after": j.after,
+             "first_listener": renv.mirror_log[:6], "last_listener": renv.late_log[:6]})
+    return key
+
+
+def reaction_scripts(flavour):
+    """Fixed reactions for the exhaustive part: 1..3 operations; some restore the
+    size, some grow or shrink the set, some do nothing."""
+    uni = UNIVERSE[flavour]
+    a, b = uni[0], uni[-1]
+    return [
+        [("add", 9)],
+        [("add", 9), ("discard", a)],
+        [("discard", a), ("add", a)],
+        [("add", b), ("add", 9), ("remove", 9)],
+        [("clear",), ("add", a)],
+        [("update", [("list", [a, 9])]), ("pop",)],
+        [("ixor", ("set", [a, b]))],
+        [("discard", b), ("add", 8), ("add", 9)],
+    ]
 
 
 # -- copy law ---------------------------------------------------------------------
@@ -728,6 +1025,9 @@ def random_op(rng, flavour, allow_hostile_diff):
 def run(ctx):
     # an exception inside an observer notifier must surface as a failing operation
     obs_api.push_exception_handler(handler=lambda event: None, reraise_exceptions=True)
+    # likewise for <name>_items listeners (the re-entrant ones catch what their own
+    # operations raise; anything else must not be swallowed)
+    push_exception_handler(handler=lambda *args: None, reraise_exceptions=True, main=True)
     smax = 3
     # ---- exhaustive single operations ---------------------------------------
     gi = 0
@@ -784,6 +1084,63 @@ def run(ctx):
                 for mode, proto in copy_modes():
                     env = Env(flavour, state)
                     check_copy(ctx, env, set(state), mode, proto)
+        finally:
+            ctx.end()
+    # ---- re-entrant listeners: exhaustive single operations x fixed reactions ----
+    gi = 0
+    for flavour in ("coerce", "tso", "reject"):
+        ops = list(single_ops(flavour))
+        scripts = reaction_scripts(flavour)
+        kinds = REACTOR_KINDS if flavour == "tso" else REACTOR_KINDS[:2]
+        for si, state in enumerate(start_states(flavour, 2)):
+            batch = []
+            for op in ops:
+                gi += 1
+                if ctx.mine(gi // 64):
+                    batch.append((gi, op))
+            if not ctx.begin("rex:%s:%d" % (flavour, si),
+                             {"flavour": flavour, "state": state, "ops": len(batch)}):
+                continue
+            try:
+                BANNED.clear()
+                for g, op in batch:
+                    k = len(scripts)
+                    renv = ReEnv(ctx, flavour, state, kinds[g % len(kinds)], "any",
+                                 scripts=scripts[g % k:] + scripts[:g % k])
+                    check_reentrant(ctx, renv, op)
+                    ctx.count("reentrant_exhaustive_cases")
+                if batch:
+                    ctx.sample({"stratum": "reentrant", "flavour": flavour, "start": state,
+                                "op": batch[len(batch) // 2][1]})
+            finally:
+                ctx.end()
+    # ---- re-entrant listeners: random histories ----------------------------------
+    nr = ctx.scale(3000, 80000)
+    for h in range(nr):
+        if not ctx.mine(h):
+            continue
+        if not ctx.begin("rehist:%d" % h):
+            continue
+        try:
+            rng = ctx.rng("rehist", h)
+            BANNED.clear()
+            flavour = rng.choice(["reject", "coerce", "tso", "coerce", "tso", "none"])
+            kind = rng.choice(REACTOR_KINDS if flavour == "tso" else REACTOR_KINDS[:2])
+            uni = list(UNIVERSE[flavour])
+            rng.shuffle(uni)
+            state = uni[:rng.randint(0, 4)]
+            renv = ReEnv(ctx, flavour, state, kind, rng.choice(TRIGGERS), rng=rng,
+                         max_reactions=rng.choice([1, 2, 2, 3]), max_depth=rng.choice([1, 1, 2]))
+            ctx.count("reentrant_histories")
+            ops = []
+            for step in range(15):
+                op = random_op(rng, flavour, False)
+                ops.append(op)
+                if check_reentrant(ctx, renv, op):
+                    break
+            if h < 2 * ctx.nshards:
+                ctx.sample({"stratum": "reentrant", "flavour": flavour, "reactor": kind,
+                            "trigger": renv.trigger, "start": state, "history": ops[:5]})
         finally:
             ctx.end()
     # ---- random histories -----------------------------------------------------
